@@ -381,7 +381,9 @@ theorem completeFailure_loc_clear (e : Engine) (id : Nat) (k : String) :
 
 /-- `apply_connection_closed_to_current_operation`: the operation that was being written goes back to a queue (or fails),
     nothing gains an occurrence -/
-theorem closeCurrent_loc (e : Engine) (hok : e.core.Ok) (hb : Big [] [] e.view) (h : Extra false [] e.view) :
+theorem closeCurrent_loc (e : Engine) (hok : e.core.Ok) (hb : Big [] [] e.view)
+    (hx1c : ∀ id, e.current = some id → id ∈ vals e.pendingPub → ∀ o, e.ops.lookup id = some o → o.pubrel.isSome = true)
+    (hx8 : ∀ id o, e.ops.lookup id = some o → o.pubrel.isSome = true → publishQos o.packet = some 2) :
     Sp e.closeCurrent.1.loc e.loc := by
   unfold Engine.closeCurrent
   cases hc : e.current with
@@ -462,8 +464,8 @@ theorem closeCurrent_loc (e : Engine) (hok : e.core.Ok) (hb : Big [] [] e.view) 
               split
               · have hnp : id ∉ vals e.pendingPub := by
                   intro hm
-                  have hpr := h.x1c rfl id hc hm o ho
-                  have hq := h.x8 id o ho hpr
+                  have hpr := hx1c id hc hm o ho
+                  have hq := hx8 id o ho hpr
                   rw [hp] at hq
                   apply hq2
                   simp only [publishQos, Option.some.injEq] at hq
@@ -471,5 +473,338 @@ theorem closeCurrent_loc (e : Engine) (hok : e.core.Ok) (hb : Big [] [] e.view) 
                 exact loc_move_to_user e id hc hnp
               · exact completeFailure_loc_clear e id _
         · exact completeFailure_loc_clear e id _
+
+/-! ### lineage of the operation table across the close handler -/
+
+/-- every operation of `b` is the operation of `a` with the same id, up to marks no rule of the invariant reads (DUP flag,
+    slow-start mark, interruption count); the configuration is the same -/
+def Lin (a b : Engine) : Prop :=
+  b.cfg = a.cfg ∧ ∀ id o', b.ops.lookup id = some o' → ∃ o, a.ops.lookup id = some o ∧ o'.pubrel = o.pubrel ∧
+    publishQos o'.packet = publishQos o.packet ∧ ∀ pol, passesPolicy o'.packet pol = passesPolicy o.packet pol
+
+theorem Lin.refl (a : Engine) : Lin a a := ⟨rfl, fun _ o h => ⟨o, h, rfl, rfl, fun _ => rfl⟩⟩
+
+theorem Lin.trans {a b c : Engine} (h1 : Lin a b) (h2 : Lin b c) : Lin a c := by
+  refine ⟨h2.1.trans h1.1, fun id o'' h => ?_⟩
+  obtain ⟨o', ho', p1, q1, r1⟩ := h2.2 id o'' h
+  obtain ⟨o, ho, p2, q2, r2⟩ := h1.2 id o' ho'
+  exact ⟨o, ho, p1.trans p2, q1.trans q2, fun pol => (r1 pol).trans (r2 pol)⟩
+
+theorem lin_of_sub {a b : Engine} (hc : b.cfg = a.cfg) (h : OpsSub a b) : Lin a b :=
+  ⟨hc, fun id o hl => ⟨o, h id o hl, rfl, rfl, fun _ => rfl⟩⟩
+
+theorem completeFailure_lin (e0 e : Engine) (id : Nat) (k : String) (h : Lin e0 e) : Lin e0 (e.completeFailure id k).1 :=
+  h.trans (lin_of_sub (completeFailure_same e id k).cfg (completeFailure_sub e id k))
+
+/-- lineage together with the first-layer invariant it needs to go on -/
+def LinP (a b : Engine) : Prop := a.core.Ok → b.core.Ok ∧ Lin a b
+
+theorem LinP.trans {a b c : Engine} (h1 : LinP a b) (h2 : LinP b c) : LinP a c := fun hok =>
+  let ⟨hb, l1⟩ := h1 hok
+  let ⟨hc, l2⟩ := h2 hb
+  ⟨hc, l1.trans l2⟩
+
+theorem linP_of (a b : Engine) (hp : Pres a b) (hl : Lin a b) : LinP a b := fun hok => ⟨(hp hok).1, hl⟩
+
+theorem setDupFlag_linP (en : Engine) (id : Nat) (v : Bool) : LinP en (en.setDupFlag id v) := by
+  intro hok
+  refine ⟨((setDupFlag_pres en id v) hok).1, ?_, ?_⟩
+  · unfold Engine.setDupFlag; cases en.op? id <;> rfl
+  · intro j x' h
+    unfold Engine.setDupFlag at h
+    cases ho : en.op? id with
+    | none => simp only [ho] at h; exact ⟨x', h, rfl, rfl, fun _ => rfl⟩
+    | some o =>
+      simp only [ho] at h
+      rcases setOp_lookup en hok id o { o with packet := setDup o.packet v } ho rfl j x' h with ⟨rfl, rfl⟩ | ⟨_, hx⟩
+      · exact ⟨o, ho, rfl, (passesPolicy_setDup o.packet v .preserveAll).2, fun pol => (passesPolicy_setDup o.packet v pol).1⟩
+      · exact ⟨x', hx, rfl, rfl, fun _ => rfl⟩
+
+theorem foldl_linP (f : Engine → Nat → Engine) (hf : ∀ en id, LinP en (f en id)) : ∀ (l : List Nat) (en : Engine), LinP en (l.foldl f en) := by
+  intro l
+  induction l with
+  | nil => intro en hok; exact ⟨hok, Lin.refl _⟩
+  | cons x xs ih => intro en; exact (hf en x).trans (ih (f en x))
+
+theorem lin_mapOps (e : Engine) (g : Nat → Op → Op)
+    (hg : ∀ id o, (g id o).packet = o.packet ∧ (g id o).pubrel = o.pubrel) :
+    Lin e { e with ops := e.ops.map (fun x => (x.1, g x.1 x.2)) } := by
+  refine ⟨rfl, fun id o' h => ?_⟩
+  have h' : (e.ops.map (fun x => (x.1, g x.1 x.2))).lookup id = some o' := h
+  rw [lookup_mapOps] at h'
+  cases hy : e.ops.lookup id with
+  | none => rw [hy] at h'; cases h'
+  | some y =>
+    rw [hy] at h'
+    simp only [Option.map_some, Option.some.injEq] at h'
+    subst h'
+    exact ⟨y, rfl, (hg id y).2, by rw [(hg id y).1], fun pol => by rw [(hg id y).1]⟩
+
+theorem slowStartInit_lin (e e2 : Engine) (hi : e.slowStartInit = some e2) : Lin e e2 := by
+  unfold Engine.slowStartInit at hi
+  split at hi
+  · cases hi; exact Lin.refl _
+  · simp only [] at hi
+    split at hi
+    · cases hi
+      exact lin_mapOps e (fun id o => if ((e.pendingNonPub.map (·.2)) ++ (e.pendingPub.map (·.2))).contains id then { o with slowStart := 1 } else o)
+        (by intro id o; split <;> exact ⟨rfl, rfl⟩)
+    · cases hi
+
+theorem updateInterrupted_lin (e e2 : Engine) (hi : e.updateInterrupted = some e2) : Lin e e2 := by
+  unfold Engine.updateInterrupted at hi
+  split at hi
+  · cases hi; exact Lin.refl _
+  · simp only [] at hi
+    split at hi
+    · cases hi
+      exact lin_mapOps e (fun id o => { o with interruptions := o.interruptions + ((e.pendingNonPub.map (·.2)) ++ (e.pendingPub.map (·.2))).count id })
+        (by intro id o; exact ⟨rfl, rfl⟩)
+    · cases hi
+
+theorem closeCurrent_lin (e : Engine) : Lin e e.closeCurrent.1 := by
+  unfold Engine.closeCurrent
+  cases hc : e.current with
+  | none => exact Lin.refl _
+  | some id =>
+    simp only []
+    cases ho : e.op? id with
+    | none => exact Lin.refl _
+    | some o =>
+      simp only []
+      have key : ∀ x : Engine × Res, Lin e x.1 →
+          Lin e (if x.2.isOk = true then (({ x.1 with current := none } : Engine), Res.ok) else (x.1, x.2)).1 := by
+        intro x hx; split
+        · exact hx
+        · exact hx
+      apply key
+      have hf : ∀ k, Lin e (e.completeFailure id k).1 := fun k => completeFailure_lin e e id k (Lin.refl _)
+      split
+      · split
+        · exact Lin.refl _
+        · exact hf _
+      · split
+        · exact Lin.refl _
+        · exact hf _
+      · split
+        · split <;> exact Lin.refl _
+        · split
+          · exact Lin.refl _
+          · split
+            · exact Lin.refl _
+            · exact hf _
+      · exact hf _
+
+theorem closeFailStage_lin (e3 : Engine) : Lin e3 e3.closeFailStage.1 := by
+  let e4 : Engine := { e3 with highQ := [] }
+  let failures := e3.highQ.filter (fun id => match e4.op? id with | some o => o.pubrel.isNone | none => true)
+  let x5 := e4.failAllIgnoringDisconnect failures "ConnectionClosed"
+  let e6 : Engine := { x5.1 with pendingWC := [] }
+  let pr := e6.partitionByPolicy x5.1.pendingWC
+  let e7 : Engine := { e6 with userQ := e6.userQ ++ pr.1 }
+  let x8 := e7.failAllIgnoringDisconnect pr.2 "OfflineQueuePolicyFailed"
+  have b4 : Lin e3 e4 := Lin.refl _
+  have b5 : Lin e3 x5.1 := failAllIgnoringDisconnect_keeps (Lin e3) (completeFailure_lin e3) _ failures e4 b4
+  have b7 : Lin e3 e7 := b5
+  have b8 : Lin e3 x8.1 := failAllIgnoringDisconnect_keeps (Lin e3) (completeFailure_lin e3) _ pr.2 e7 b7
+  exact failExceeding_keeps (Lin e3) (completeFailure_lin e3) x8.1 b8
+
+/-- an operation the policy split retains is tracked and passes the policy -/
+theorem partitionByPolicy_pass (e : Engine) (q : List Nat) :
+    ∀ id ∈ (e.partitionByPolicy q).1, ∃ o, e.op? id = some o ∧ passesPolicy o.packet e.cfg.policy = true := by
+  unfold Engine.partitionByPolicy
+  simp only []
+  intro id hid
+  simp only [List.mem_map, List.mem_filter, List.mem_filterMap] at hid
+  obtain ⟨x, ⟨⟨a, _, hx⟩, hp⟩, rfl⟩ := hid
+  cases ho : e.op? a with
+  | none => rw [ho] at hx; cases hx
+  | some o =>
+    rw [ho] at hx
+    simp only [Option.map_some, Option.some.injEq] at hx
+    subst hx
+    exact ⟨o, ho, hp⟩
+
+/-- close handler, part 2: operation lineage, and what ends in the user queue passes the offline policy -/
+theorem closeRequeueStage_lin (e9 : Engine) (hok : e9.core.Ok) :
+    Lin e9 e9.closeRequeueStage.1 ∧
+    ∀ id ∈ e9.closeRequeueStage.1.userQ, ∀ o, e9.closeRequeueStage.1.ops.lookup id = some o → passesPolicy o.packet e9.cfg.policy = true := by
+  let e10 := (vals e9.pendingPub).foldl (fun en id => ({ en.setDupFlag id true with resubQ := en.resubQ ++ [id] } : Engine)) ({ e9 with pendingPub := [] } : Engine)
+  let e11 := (vals e10.pendingNonPub).foldl (fun en id => ({ en with userQ := id :: en.userQ } : Engine)) ({ e10 with pendingNonPub := [] } : Engine)
+  let e12 : Engine := { e11 with userQ := [] }
+  let pr := e12.partitionByPolicy e11.userQ
+  let x13 := e12.failAll pr.2 "OfflineQueuePolicyFailed"
+  have hres : e9.closeRequeueStage.1 = { x13.1 with userQ := x13.1.userQ ++ pr.1 } := rfl
+  have l10 : LinP ({ e9 with pendingPub := [] } : Engine) e10 :=
+    foldl_linP (fun en id => ({ en.setDupFlag id true with resubQ := en.resubQ ++ [id] } : Engine))
+      (fun en id => (setDupFlag_linP en id true).trans (fun hk => ⟨hk, ⟨rfl, fun _ o h => ⟨o, h, rfl, rfl, fun _ => rfl⟩⟩⟩)) _ _
+  obtain ⟨_, l10'⟩ := l10 hok
+  have l11' : Lin ({ e10 with pendingNonPub := [] } : Engine) e11 := by
+    -- the second fold does not touch the table at all
+    have : ∀ (l : List Nat) (en : Engine), Lin en (l.foldl (fun en id => ({ en with userQ := id :: en.userQ } : Engine)) en) := by
+      intro l
+      induction l with
+      | nil => intro en; exact Lin.refl _
+      | cons x xs ih => intro en; exact (Lin.trans (b := ({ en with userQ := x :: en.userQ } : Engine)) (Lin.refl _) (ih _))
+    exact this _ _
+  have l12 : Lin e9 e12 := (Lin.trans (b := ({ e9 with pendingPub := [] } : Engine)) (Lin.refl _) l10').trans
+    (Lin.trans (b := ({ e10 with pendingNonPub := [] } : Engine)) (Lin.refl _) l11')
+  have l13 : Lin e12 x13.1 := failAll_keeps (Lin e12) (completeFailure_lin e12) _ pr.2 e12 (Lin.refl _)
+  rw [hres]
+  refine ⟨l12.trans l13, ?_⟩
+  intro id hid o ho
+  have hu13 : x13.1.userQ = [] := failAll_userQ _ _ e12
+  have hid' : id ∈ pr.1 := by
+    have : id ∈ x13.1.userQ ++ pr.1 := hid
+    rw [hu13] at this; exact this
+  obtain ⟨o12, ho12, hp⟩ := partitionByPolicy_pass e12 e11.userQ id hid'
+  obtain ⟨o', ho', _, _, hpol⟩ := l13.2 id o ho
+  rw [show e12.ops.lookup id = some o12 from ho12] at ho'
+  cases ho'
+  rw [hpol, ← l12.1]
+  exact hp
+
+theorem slowStartInit_loc (e e2 : Engine) (hi : e.slowStartInit = some e2) : e2.loc = e.loc := by
+  unfold Engine.slowStartInit at hi
+  split at hi
+  · cases hi; rfl
+  · simp only [] at hi
+    split at hi
+    · cases hi; exact loc_of_fields _ _ rfl rfl rfl rfl rfl rfl
+    · cases hi
+
+theorem updateInterrupted_loc (e e2 : Engine) (hi : e.updateInterrupted = some e2) : e2.loc = e.loc := by
+  unfold Engine.updateInterrupted at hi
+  split at hi
+  · cases hi; rfl
+  · simp only [] at hi
+    split at hi
+    · cases hi; exact loc_of_fields _ _ rfl rfl rfl rfl rfl rfl
+    · cases hi
+
+theorem closeCurrent_timeouts (e : Engine) : e.closeCurrent.1.timeouts = e.timeouts := by
+  unfold Engine.closeCurrent
+  cases hc : e.current with
+  | none => rfl
+  | some id =>
+    simp only []
+    cases ho : e.op? id with
+    | none => rfl
+    | some o =>
+      simp only []
+      have key : ∀ x : Engine × Res, x.1.timeouts = e.timeouts →
+          (if x.2.isOk = true then (({ x.1 with current := none } : Engine), Res.ok) else (x.1, x.2)).1.timeouts = e.timeouts := by
+        intro x hx; split <;> exact hx
+      apply key
+      have hf : ∀ k, (e.completeFailure id k).1.timeouts = e.timeouts := fun k => (completeFailure_same e id k).timeouts
+      split
+      · split
+        · rfl
+        · exact hf _
+      · split
+        · rfl
+        · exact hf _
+      · split
+        · split <;> rfl
+        · split
+          · rfl
+          · split
+            · rfl
+            · exact hf _
+      · exact hf _
+
+/-- **`handle_network_event_connection_closed` keeps the second layer**: afterwards every operation waits in exactly one of
+    the two queues, and what waits in the user queue passes the offline policy. -/
+theorem handleClosed_extra (e : Engine) (hinv : Inv e) (hx : Extra false [] e.view) : Extra false [] e.handleClosed.1.view := by
+  obtain ⟨hok, h, hD, hS⟩ := hinv
+  have hnd := loc_nodup e h hx
+  unfold Engine.handleClosed
+  split
+  · exact hx
+  · simp only []
+    let e0 : Engine := { e with state := .disconnected, connackDeadline := none, nextPing := none, pingDeadline := none, timeouts := [] }
+    have hok0 : e0.core.Ok := ((Pres.of_core_conn (e := e) (e' := e0) false rfl (by simp)) hok).1
+    have h0 : Big [] [] e0.view := by
+      show Big [] [] { e.view with state := .disconnected, noTimeouts := true, connackSet := false }
+      exact { h with h1 := (fun hh => by cases hh), c1 := (fun hh => by cases hh), f := (fun hh => by cases hh) }
+    have hst0 : e0.state = .disconnected := rfl
+    have s1 := closeCurrent_stp e0 hst0
+    have h1 := s1.keeps hok0 h0
+    have hok1 := (s1.pres hok0).1
+    have hr1 := closeCurrent_ok e0 hok0
+    have hst1 : e0.closeCurrent.1.state = .disconnected := by rw [closeCurrent_state e0 (by rw [hst0]; decide)]
+    have ht1 : e0.closeCurrent.1.timeouts = [] := closeCurrent_timeouts e0
+    have c1 : Sp e0.closeCurrent.1.loc e.loc := closeCurrent_loc e0 hok0 h0 (fun id hc hm o ho => hx.x1c rfl id hc hm o ho) hx.x8
+    have l1 : Lin e e0.closeCurrent.1 := Lin.trans (b := e0) ⟨rfl, fun _ o hl => ⟨o, hl, rfl, rfl, fun _ => rfl⟩⟩ (closeCurrent_lin e0)
+    generalize hx1 : e0.closeCurrent = x1 at h1 hok1 hr1 hst1 ht1 c1 l1
+    obtain ⟨e1, r1⟩ := x1
+    simp only [] at h1 hok1 hr1 hst1 ht1 c1 l1 ⊢
+    rw [hr1.1]
+    simp only [Res.isOk, Bool.not_true, Bool.false_eq_true, ↓reduceIte]
+    obtain ⟨e2, hss⟩ := slowStartInit_some e1 h1
+    rw [hss]
+    simp only []
+    have s2 := slowStartInit_stp (S := []) (U := []) e1 e2 hss (by rw [hst1]; decide)
+    have h2 := s2.keeps hok1 h1
+    have hok2 := (s2.pres hok1).1
+    have f2 := slowStartInit_frame e1 e2 hss
+    obtain ⟨e3, hui⟩ := updateInterrupted_some e2 h2
+    rw [hui]
+    simp only []
+    have s3 := updateInterrupted_stp (S := []) (U := []) e2 e3 hui
+    have h3 := s3.keeps hok2 h2
+    have hok3 := (s3.pres hok2).1
+    have f3 := updateInterrupted_frame e2 e3 hui
+    have hst3 : e3.state = .disconnected := by rw [f3.2.2.2, f2.2.2.2]; exact hst1
+    have hc3 : e3.current = none := by rw [f3.1, f2.1]; exact hr1.2
+    have ht3 : e3.timeouts = [] := by rw [f3.2.2.1, f2.2.2.1]; exact ht1
+    have c3 : Sp e3.loc e.loc := by rw [updateInterrupted_loc e2 e3 hui, slowStartInit_loc e1 e2 hss]; exact c1
+    have l3 : Lin e e3 := (l1.trans (slowStartInit_lin e1 e2 hss)).trans (updateInterrupted_lin e2 e3 hui)
+    have s9 := closeFailStage_stp e3 hst3
+    have h9 := s9.keeps hok3 h3
+    have hok9 := (s9.pres hok3).1
+    have q9 := closeFailStage_quiet e3 hc3 ht3
+    have hst9 := GV.closeFailStage_state e3 hst3
+    have c9 := closeFailStage_loc e3 hc3
+    have l9 := l3.trans (closeFailStage_lin e3)
+    generalize e3.closeFailStage = x9 at h9 hok9 q9 hst9 c9 l9 ⊢
+    obtain ⟨e9, rabc⟩ := x9
+    simp only [] at h9 hok9 q9 hst9 c9 l9 ⊢
+    have q14 := closeRequeueStage_quiet e9 q9
+    have hst14 := GV.closeRequeueStage_state e9 hst9
+    have c14 := closeRequeueStage_loc e9 q9.current
+    have l14 := closeRequeueStage_lin e9 hok9
+    generalize e9.closeRequeueStage = x14 at q14 hst14 c14 l14 ⊢
+    obtain ⟨e14, rd⟩ := x14
+    simp only [] at q14 hst14 c14 l14 ⊢
+    have hnd14 : (e14.userQ ++ e14.resubQ).Nodup := ((c14.trans c9.1).trans c3).nodup hnd
+    have lfin : Lin e e14 := l9.trans l14.1
+    have hcur : e14.view.current = none := q14.1.current
+    have hhq : e14.view.highQ = [] := q14.1.highQ
+    have hwc : e14.view.pendingWC = [] := q14.1.pendingWC
+    have hpp : e14.view.pendingPub = [] := q14.2.1
+    have hpn : e14.view.pendingNonPub = [] := q14.2.2
+    have hstv : e14.view.state = .disconnected := hst14
+    exact {
+      x1a := fun _ id hc => by rw [hcur] at hc; cases hc
+      x1b := fun _ id hc => by rw [hcur] at hc; cases hc
+      x1c := fun _ id hc => by rw [hcur] at hc; cases hc
+      x2 := fun id _ => by rw [hwc, hpp, hpn]; exact ⟨List.not_mem_nil, List.not_mem_nil, List.not_mem_nil⟩
+      x3 := fun id hi => by rw [hhq] at hi; cases hi
+      x4 := fun id hc => by rw [hcur] at hc; cases hc
+      x5 := ⟨hnd14, fun id _ => by rw [hhq]; exact List.not_mem_nil⟩
+      x6 := fun id hc => by rw [hcur] at hc; cases hc
+      x7 := fun id hi => by rw [hhq] at hi; cases hi
+      x8 := fun id o' ho' hp => by
+        obtain ⟨o, ho, p1, p2, _⟩ := lfin.2 id o' ho'
+        rw [p2]; exact hx.x8 id o ho (by rw [← p1]; exact hp)
+      x9 := by rw [hwc]; exact List.nodup_nil
+      cur := fun hs => by rw [hstv] at hs; rcases hs with a | a <;> cases a
+      h1e := fun hs => by rw [hstv] at hs; cases hs
+      op := fun _ id hi o ho => by
+        have := l14.2 id hi o ho
+        have hcfg : e14.cfg = e9.cfg := l14.1.1
+        show passesPolicy o.packet e14.cfg.policy = true
+        rw [hcfg]; exact this }
 
 end GV
